@@ -22,7 +22,7 @@ DT = {"f": TP.FLOAT, "d": TP.DOUBLE, "h": TP.FLOAT16, "i": TP.INT32, "l": TP.INT
 NPDT = {"f": np.float32, "d": np.float64, "h": np.float16, "i": np.int32, "l": np.int64, "b": np.bool_, "u": np.uint8, "c": np.int8}
 
 UNARY = ["Relu", "Tanh", "Sigmoid", "Neg", "Abs", "Exp", "Identity", "Sqrt", "Elu", "LeakyRelu", "Gelu", "Log"]
-CHAIN_UNARY = ["Relu", "Tanh", "Sigmoid", "Identity", "Elu", "LeakyRelu", "Gelu"]  # subset in ALLOWED_ELEMWISE
+CHAIN_UNARY = ["Relu", "Tanh", "Sigmoid", "Identity", "Elu", "Elu", "LeakyRelu", "Gelu", "Elu"]  # subset in ALLOWED_ELEMWISE (Elu: not repaired by the shape-propagation passes)
 BINARY = ["Add", "Mul", "Sub", "Max", "Min", "Div"]
 CHAIN_BINARY = ["Max", "Min"]
 PERMS = {
@@ -150,7 +150,7 @@ class GB:
 
     def chain_step(self, cur):
         """One ALLOWED_ELEMWISE op keeping dtype float."""
-        k = self.draw(st.sampled_from(["u", "u", "b", "clip", "castpair", "castlike"]))
+        k = self.draw(st.sampled_from(["u", "u", "u", "b", "clip", "castpair", "castlike"]))
         dt, shape = self.vals[cur]
         if dt != "f":
             k = "u" if dt in "fdh" else "ident"
@@ -334,7 +334,7 @@ class GB:
             else:
                 a = self.reshape_to(src, (-1,), ("_flat",))
         cur = a
-        for _ in range(self.draw(st.integers(0, 2))):
+        for _ in range(self.draw(st.integers(0, 3))):
             if self.vals[cur][1] == ("_flat",):
                 cur = self.unary(cur, CHAIN_UNARY)
             else:
